@@ -26,6 +26,8 @@ CONSTANTS
     ParamValuesReachDelays,   \* replace_parameter_values also substitutes into the delay arguments
     ChecksBeforeSave,         \* transfer_model runs _post_checks before the model is written to the cache (TRUE in the code)
     AliasesReachDurations,    \* alias elimination rewrites delay durations as well as delayed expressions (TRUE in the code)
+    DelayInputsForbidden,     \* the input symbols created for delayed values count as non-fixed inputs (TRUE in the code)
+    ExpandKeepsElements,      \* expand_vectors pairs each element name with the element of that index (TRUE in the code)
     Family
 
 VARIABLES prog, phase, dargs, raised, params, consts, out, last,
@@ -36,21 +38,27 @@ VARIABLES prog, phase, dargs, raised, params, consts, out, last,
 vars == <<prog, phase, dargs, raised, params, consts, out, last, req, cached, first, algs>>
 
 SW == [ownfree |-> LoopDelayOwnFreeVars, durmap |-> LoopDurationMapped, pvals |-> ParamValuesReachDelays,
-       chk |-> ChecksBeforeSave, aldur |-> AliasesReachDurations]
+       chk |-> ChecksBeforeSave, aldur |-> AliasesReachDurations, dinp |-> DelayInputsForbidden, elem |-> ExpandKeepsElements]
 (* the code as it is now: the for-loop handling still deviates; replace_parameter_values has been repaired in /repo *)
-AsBuilt == [ownfree |-> FALSE, durmap |-> FALSE, pvals |-> TRUE, chk |-> TRUE, aldur |-> TRUE]
+AsBuilt == [ownfree |-> FALSE, durmap |-> FALSE, pvals |-> TRUE, chk |-> TRUE, aldur |-> TRUE, dinp |-> TRUE, elem |-> TRUE]
 
 -----------------------------------------------------------------------------
 (* ---- the fixed variable universe of the family ---- *)
 (* name -> category (C.5): c constant, p / ps parameters, uf fixed input, u input, x state, a / xs / y / z / ys / zs algebraic *)
 Category == [c |-> "constant", p |-> "parameter", ps |-> "parameter", uf |-> "fixed input", u |-> "input",
              x |-> "state", a |-> "algebraic", xs |-> "algebraic", y |-> "algebraic", z |-> "algebraic",
-             ys |-> "algebraic", zs |-> "algebraic", b1 |-> "algebraic", b2 |-> "algebraic"]
+             ys |-> "algebraic", zs |-> "algebraic", b1 |-> "algebraic", b2 |-> "algebraic",
+             xm |-> "algebraic", ym |-> "algebraic"]
 (* the model contains  b1 = b2  (an alias pair for detect_aliases) and  b2 = 2 * a *)
-AllAlgs == {"a", "xs", "y", "z", "ys", "zs", "b1", "b2"}
+AllAlgs == {"a", "xs", "y", "z", "ys", "zs", "b1", "b2", "xm", "ym"}
+(* xm, ym are 2 x 3 matrices; values are listed row by row *)
+MatRows == 2
+MatCols == 3
 Arrays == {"ps", "xs", "ys", "zs"}
 LoopValues == <<1, 2>>
-Forbidden == {"time", "state", "derivative", "algebraic", "input"}
+(* "delayed value": the result of another delay() - it varies with time like the signal it delays; in the model it is
+   an input symbol that is not fixed *)
+Forbidden == {"time", "state", "derivative", "algebraic", "input", "delayed value"}
 (* declared values of constants and parameters (also their values at every evaluation point) *)
 DeclValue == [c |-> <<2>>, p |-> <<3>>, ps |-> <<1, 2>>]
 
@@ -64,16 +72,22 @@ TimeE      == E("time", "", <<>>, 0)
 DerX       == E("der", "x", <<>>, 0)
 Neg(e)     == E("un", "-", <<e>>, 0)
 Bin(o, l, r) == E("bin", o, <<l, r>>, 0)
+MRef(n)    == E("mref", n, <<>>, 0)         \* a whole matrix variable (element-wise meaning)
+DelayE(x, d) == E("delay", "", <<x, d>>, 0)  \* a nested delay() call
+DSym       == E("dsym", "", <<>>, 0)        \* the input symbol of some delay (after alias elimination of y = delay(..))
 
 (* delay call site: in a loop or not; `body` = the loop also contains  zs[i] = p * x  *)
-Site(loop, expr, dur, body) == [loop |-> loop, expr |-> expr, dur |-> dur, body |-> body]
+Site(loop, expr, dur, body) == [loop |-> loop, expr |-> expr, dur |-> dur, body |-> body, mat |-> FALSE]
+(* ym = delay(expr over the matrix xm, dur): one delayed value per matrix element *)
+MatSite(expr, dur) == [loop |-> FALSE, expr |-> expr, dur |-> dur, body |-> FALSE, mat |-> TRUE]
 Prog(fam, sites, opt) == [fam |-> fam, sites |-> sites, opt |-> opt]
 
 -----------------------------------------------------------------------------
 (* ---- declarative side ---- *)
 RECURSIVE Cats(_)
 Cats(e) ==
-    CASE e.k \in {"ref", "iref", "elem"} -> {Category[e.n]}
+    CASE e.k \in {"ref", "iref", "elem", "mref"} -> {Category[e.n]}
+      [] e.k \in {"delay", "dsym"} -> {"delayed value"}
       [] e.k = "time" -> {"time"}
       [] e.k = "der"  -> {"derivative"}
       [] e.k \in {"lit", "idx"} -> {}
@@ -84,9 +98,9 @@ DeclReject(p) == \E s \in DOMAIN p.sites : Cats(p.sites[s].dur) \cap Forbidden #
 (* evaluation points: integer values of the variables that are not constants / parameters *)
 NPoints == 2
 PointVal == << [uf |-> <<2>>, u |-> <<-1>>, x |-> <<3>>, a |-> <<-2>>, xs |-> <<2, -3>>, y |-> <<1>>, z |-> <<1>>, ys |-> <<1, 1>>, zs |-> <<1, 1>>,
-                b1 |-> <<-4>>, b2 |-> <<-4>>],
+                b1 |-> <<-4>>, b2 |-> <<-4>>, xm |-> <<1, 2, 3, 4, 5, 6>>, ym |-> <<0, 0, 0, 0, 0, 0>>],
                [uf |-> <<-3>>, u |-> <<2>>, x |-> <<-1>>, a |-> <<3>>, xs |-> <<-2, 1>>, y |-> <<2>>, z |-> <<-1>>, ys |-> <<0, 2>>, zs |-> <<3, 1>>,
-                b1 |-> <<6>>, b2 |-> <<6>>] >>
+                b1 |-> <<6>>, b2 |-> <<6>>, xm |-> <<-1, 3, -2, 5, 4, -6>>, ym |-> <<0, 0, 0, 0, 0, 0>>] >>
 PointTime == <<2, -1>>
 PointDer == <<-2, 3>>
 ValueOf(n, pt) == IF n \in DOMAIN DeclValue THEN DeclValue[n] ELSE PointVal[pt][n]
@@ -96,6 +110,8 @@ Eval(e, pt, i) ==        \* i: value of the loop index (0 outside loops)
     CASE e.k = "ref"  -> FromInt(ValueOf(e.n, pt)[1])
       [] e.k = "iref" -> FromInt(ValueOf(e.n, pt)[i])
       [] e.k = "elem" -> FromInt(ValueOf(e.n, pt)[e.v])
+      [] e.k = "mref" -> FromInt(ValueOf(e.n, pt)[i])       \* i: position of the element, row by row
+      [] e.k \in {"delay", "dsym"} -> Err                   \* never evaluated: such models are rejected
       [] e.k = "idx"  -> FromInt(i)
       [] e.k = "lit"  -> FromInt(e.v)
       [] e.k = "time" -> FromInt(PointTime[pt])
@@ -108,12 +124,16 @@ Eval(e, pt, i) ==        \* i: value of the loop index (0 outside loops)
 RECURSIVE Varying(_)
 Varying(e) == e.k \in {"iref", "idx"} \/ \E i \in DOMAIN e.a : Varying(e.a[i])
 Varies(s) == s.loop /\ (Varying(s.expr) \/ Varying(s.dur))
-SitePairs(s, pt) ==
-    IF Varies(s) THEN [j \in DOMAIN LoopValues |-> <<Eval(s.expr, pt, LoopValues[j]), Eval(s.dur, pt, LoopValues[j])>>]
-    ELSE << <<Eval(s.expr, pt, 0), Eval(s.dur, pt, 0)>> >>
+(* an entry is <<key, expression value, duration value>>; key = <<number of the delay, row, column>> identifies the
+   delayed signal (_pymoca_delay_N, element [row, column]) the pair belongs to *)
+MatKey(n, k) == <<n, ((k - 1) \div MatCols) + 1, ((k - 1) % MatCols) + 1>>
+SitePairs(s, n, pt) ==
+    IF s.mat THEN [k \in 1..(MatRows * MatCols) |-> <<MatKey(n, k), Eval(s.expr, pt, k), Eval(s.dur, pt, 0)>>]
+    ELSE IF Varies(s) THEN [j \in DOMAIN LoopValues |-> <<<<n, j, 1>>, Eval(s.expr, pt, LoopValues[j]), Eval(s.dur, pt, LoopValues[j])>>]
+    ELSE << <<<<n, 1, 1>>, Eval(s.expr, pt, 0), Eval(s.dur, pt, 0)>> >>
 RECURSIVE Concat(_)
 Concat(ss) == IF ss = <<>> THEN <<>> ELSE Head(ss) \o Concat(Tail(ss))
-DeclArgs(p, pt) == Concat([s \in DOMAIN p.sites |-> SitePairs(p.sites[s], pt)])
+DeclArgs(p, pt) == Concat([s \in DOMAIN p.sites |-> SitePairs(p.sites[s], s - 1, pt)])
 
 Expect(p) == [reject |-> DeclReject(p),
               args |-> IF DeclReject(p) THEN <<>> ELSE [pt \in 1..NPoints |-> DeclArgs(p, pt)]]
@@ -123,7 +143,8 @@ Expect(p) == [reject |-> DeclReject(p),
 (* symbols of a tree: scalars and whole arrays by name, placeholders "n[i]" and "i" inside a loop body *)
 RECURSIVE Syms(_)
 Syms(e) ==
-    CASE e.k \in {"ref", "elem"} -> {e.n}
+    CASE e.k \in {"ref", "elem", "mref"} -> {e.n}
+      [] e.k \in {"delay", "dsym"} -> {"_pymoca_delay"}
       [] e.k = "iref" -> {"[i]" \o e.n}
       [] e.k = "idx"  -> {"i"}
       [] e.k = "time" -> {"time"}
@@ -153,20 +174,28 @@ Subst(e, names) ==
 RECURSIVE Alias(_)
 Alias(e) ==
     CASE e.k = "ref" /\ e.n = "b2" -> Ref("b1")
+      [] e.k = "ref" /\ e.n = "y" -> DSym          \* y = delay(..) makes y an alias of the delay's input symbol
       [] e.k \in {"un", "bin"} -> [e EXCEPT !.a = [i \in DOMAIN e.a |-> Alias(e.a[i])]]
       [] OTHER -> e
 
 (* a delay argument after generation: expression per element, duration(s), and `hidden`: symbols the
    mapped expression depends on only structurally (the map call over the loop takes the free variables of the
    whole loop body as arguments, whether the delayed expression uses them or not) *)
-DArg(exprs, durs, hidden) == [exprs |-> exprs, durs |-> durs, hidden |-> hidden]
+DArg(exprs, durs, hidden) == [exprs |-> exprs, durs |-> durs, hidden |-> hidden, mat |-> FALSE]
+(* matrix element k (row by row) of a matrix expression *)
+RECURSIVE AtElem(_, _)
+AtElem(e, k) ==
+    CASE e.k = "mref" -> Elem(e.n, k)
+      [] e.k \in {"un", "bin"} -> [e EXCEPT !.a = [i \in DOMAIN e.a |-> AtElem(e.a[i], k)]]
+      [] OTHER -> e
 
 (* symbols of the rest of the loop body (free variables of the mapped loop function) *)
 BodyFree(s) == IF s.body THEN {"p", "x"} ELSE {}
 
 (* exitExpression + exitForEquation for one site; returns [raise, darg] *)
 GenSite(s, sw) ==
-    IF ~s.loop THEN [raise |-> "", darg |-> DArg(<<s.expr>>, <<s.dur>>, {})]
+    IF s.mat THEN [raise |-> "", darg |-> [DArg([k \in 1..(MatRows * MatCols) |-> AtElem(s.expr, k)], <<s.dur>>, {}) EXCEPT !.mat = TRUE]]
+    ELSE IF ~s.loop THEN [raise |-> "", darg |-> DArg(<<s.expr>>, <<s.dur>>, {})]
     ELSE IF ~(Varying(s.expr) \/ (sw.durmap /\ Varying(s.dur)))
          THEN [raise |-> "", darg |-> DArg(<<s.expr>>, <<s.dur>>, {})]       \* not registered with the loop: stays scalar
     ELSE IF ~sw.ownfree /\ ~(ScalarSyms(s.expr) \subseteq BodyFree(s))
@@ -179,30 +208,37 @@ GenSite(s, sw) ==
                         BodyFree(s))]
 
 (* simplification passes that touch the delay arguments, by option set *)
-SubstArg(d, names) == DArg([i \in DOMAIN d.exprs |-> Subst(d.exprs[i], names)], [i \in DOMAIN d.durs |-> Subst(d.durs[i], names)],
-                           d.hidden \ names)
-AliasArg(d, sw) == DArg([i \in DOMAIN d.exprs |-> Alias(d.exprs[i])],
-                        IF sw.aldur THEN [i \in DOMAIN d.durs |-> Alias(d.durs[i])] ELSE d.durs, d.hidden)
+SubstArg(d, names) == [d EXCEPT !.exprs = [i \in DOMAIN d.exprs |-> Subst(d.exprs[i], names)],
+                                !.durs = [i \in DOMAIN d.durs |-> Subst(d.durs[i], names)], !.hidden = d.hidden \ names]
+AliasArg(d, sw) == [d EXCEPT !.exprs = [i \in DOMAIN d.exprs |-> Alias(d.exprs[i])],
+                             !.durs = IF sw.aldur THEN [i \in DOMAIN d.durs |-> Alias(d.durs[i])] ELSE d.durs]
+(* expand_vectors: the delayed matrix becomes one scalar delay per element, named row by row ([1,1], [1,2], ...); the
+   element of that index is taken from the expression (not the k-th one in the matrix's column-major storage order) *)
+ColMajor(k) == LET j == ((k - 1) \div MatRows) + 1 i == ((k - 1) % MatRows) + 1 IN (i - 1) * MatCols + j
+ExpandArg(d, sw) == IF d.mat /\ ~sw.elem THEN [d EXCEPT !.exprs = [k \in DOMAIN d.exprs |-> d.exprs[ColMajor(k)]]] ELSE d
 SimplifyArgs(ds, opt, sw) ==
     CASE opt = "constvals" -> [i \in DOMAIN ds |-> SubstArg(ds[i], {"c"})]
       [] opt = "aliases" -> [i \in DOMAIN ds |-> AliasArg(ds[i], sw)]
+      [] opt = "expand" -> [i \in DOMAIN ds |-> ExpandArg(ds[i], sw)]
       [] opt = "paramvals" -> IF sw.pvals THEN [i \in DOMAIN ds |-> SubstArg(ds[i], {"p", "ps"})] ELSE ds
       [] OTHER -> ds
 RemainingParams(opt) == IF opt = "paramvals" THEN {} ELSE {"p", "ps"}
 RemainingConsts(opt) == IF opt = "constvals" THEN {} ELSE {"c"}
-RemainingAlgs(opt) == IF opt = "aliases" THEN AllAlgs \ {"b2"} ELSE AllAlgs
+RemainingAlgs(opt) == IF opt = "aliases" THEN AllAlgs \ {"b2", "y", "z"} ELSE AllAlgs
 
 (* _post_checks: symbols a duration may not depend on *)
-ForbiddenSyms(al) == {"time", "der(x)", "x", "u"} \cup al
-                      \cup {"_pymoca_delay"}          \* delayed symbols are inputs that are not fixed
+ForbiddenSyms(al, sw) == {"time", "der(x)", "x", "u"} \cup al
+                          \cup (IF sw.dinp THEN {"_pymoca_delay"} ELSE {})     \* delayed symbols are inputs that are not fixed
 DurSyms(ds) == UNION {UNION {Syms(ds[i].durs[j]) : j \in DOMAIN ds[i].durs} : i \in DOMAIN ds}
 ArgSyms(ds) == DurSyms(ds) \cup UNION {UNION {Syms(ds[i].exprs[j]) : j \in DOMAIN ds[i].exprs} : i \in DOMAIN ds}
                \cup UNION {ds[i].hidden : i \in DOMAIN ds}
-FunctionInputs(ps, cs, al) == {"time", "der(x)", "x", "u", "uf"} \cup al \cup ps \cup cs
+FunctionInputs(ps, cs, al) == {"time", "der(x)", "x", "u", "uf", "_pymoca_delay"} \cup al \cup ps \cup cs
 
 (* delay_arguments_function evaluated at a point: one pair per element, durations broadcast *)
-ArgPairs(d, pt) == [j \in DOMAIN d.exprs |-> <<Eval(d.exprs[j], pt, 0), Eval(d.durs[IF Len(d.durs) = 1 THEN 1 ELSE j], pt, 0)>>]
-OpArgs(ds, pt) == Concat([i \in DOMAIN ds |-> ArgPairs(ds[i], pt)])
+ArgPairs(d, n, pt) == [j \in DOMAIN d.exprs |->
+                         <<IF d.mat THEN MatKey(n, j) ELSE <<n, j, 1>>,
+                           Eval(d.exprs[j], pt, 0), Eval(d.durs[IF Len(d.durs) = 1 THEN 1 ELSE j], pt, 0)>>]
+OpArgs(ds, pt) == Concat([i \in DOMAIN ds |-> ArgPairs(ds[i], i - 1, pt)])
 
 NoOut == [verdict |-> "", function |-> "", args |-> <<>>]
 NoFirst == [verdict |-> "", function |-> "", args |-> <<>>, raised |-> ""]
@@ -229,6 +265,18 @@ AliasProgs == {Prog("alias", <<Site(FALSE, e, d, FALSE)>>, o) :
                   e \in {Expr1, Bin("*", Ref("b2"), Ref("p")), Bin("+", Ref("b1"), Ref("x"))},
                   d \in {Ref("b1"), Ref("b2"), Bin("+", Ref("b2"), Ref("p")), Ref("p"), Bin("+", Ref("p"), Ref("uf"))},
                   o \in {"aliases", "default"}}
+(* a duration that is the result of another delay: nested, and through the algebraic variable the first delay defines
+   (which alias elimination rewrites to that delay's input symbol) *)
+ChainProgs == {Prog("chain", <<Site(FALSE, Expr1, d, FALSE), Site(FALSE, Ref("a"), d2, FALSE)>>, o) :
+                  d \in {Ref("p"), Ref("c"), Ref("uf")}, d2 \in {Ref("y"), Bin("+", Ref("y"), Ref("p"))}, o \in {"aliases", "default", "expand"}}
+              \cup {Prog("chain", <<Site(FALSE, Expr1, DelayE(Ref("x"), d), FALSE)>>, o) :
+                  d \in {Ref("p"), Ref("c"), Lit(1)}, o \in {"default", "aliases", "constvals"}}
+              \cup {Prog("chain", <<Site(FALSE, Expr1, Bin("+", Ref("p"), DelayE(Ref("a"), Ref("uf"))), FALSE)>>, "default")}
+(* a delayed matrix expression: element-distinct values, with and without expand_vectors *)
+MatProgs == {Prog("matrix", <<MatSite(e, d)>>, o) :
+                e \in {MRef("xm"), Bin("*", Lit(3), MRef("xm")), Bin("+", MRef("xm"), MRef("xm"))},
+                d \in {Ref("p"), Ref("c"), Bin("+", Ref("p"), Ref("uf")), Ref("x")}, o \in {"default", "expand", "constvals"}}
+            \cup {Prog("matrix", <<Site(FALSE, Expr1, Ref("p"), FALSE), MatSite(Bin("*", MRef("xm"), Ref("p")), Ref("uf"))>>, o) : o \in {"default", "expand"}}
 (* the model cache: the same request twice *)
 CacheProgs == Outside(Atoms, {Expr1}, "cache")
               \cup {Prog("mixed", <<Site(FALSE, Expr2, d1, FALSE), Site(TRUE, IRef("xs"), d2, FALSE)>>, "cache") :
@@ -239,15 +287,15 @@ Programs ==
             Outside(Atoms \cup PairDurs, {Expr1}, "default") \cup Outside(Atoms, {Expr2}, "default")
             \cup Loops("default") \cup Mixed("default")
             \cup UNION {Outside(Atoms, {Expr2}, o) \cup Mixed(o) : o \in Opts}
-            \cup AliasProgs \cup CacheProgs
+            \cup AliasProgs \cup CacheProgs \cup ChainProgs \cup MatProgs
       [] Family = "thorough" ->
             Outside(Atoms \cup PairDurs \cup OtherDurs, {Expr1, Expr2}, "default") \cup TwoSites("default")
             \cup Loops("default") \cup Mixed("default")
             \cup UNION {Outside(Atoms \cup PairDurs, {Expr2}, o) \cup Mixed(o) \cup Loops(o) \cup TwoSites(o) : o \in Opts}
-            \cup AliasProgs \cup CacheProgs \cup Outside(PairDurs, {Expr2}, "cache")
+            \cup AliasProgs \cup CacheProgs \cup Outside(PairDurs, {Expr2}, "cache") \cup ChainProgs \cup MatProgs
       [] Family = "cex" ->
             Outside(Atoms, {Expr1}, "default") \cup Loops("default") \cup Outside({Ref("p")}, {Expr1}, "paramvals")
-            \cup AliasProgs \cup Outside(Atoms, {Expr1}, "cache")
+            \cup AliasProgs \cup Outside(Atoms, {Expr1}, "cache") \cup ChainProgs \cup MatProgs
 
 -----------------------------------------------------------------------------
 (* ---- behaviour: the phases of transfer_model ---- *)
@@ -286,7 +334,7 @@ Simplify ==
 
 PostChecks ==
     /\ phase = "postcheck"
-    /\ IF DurSyms(dargs) \cap ForbiddenSyms(algs) # {}
+    /\ IF DurSyms(dargs) \cap ForbiddenSyms(algs, SW) # {}
        THEN /\ raised' = "ValueError" /\ phase' = "done" /\ out' = [NoOut EXCEPT !.verdict = "reject"]
        ELSE /\ phase' = (IF prog.opt = "cache" /\ SW.chk /\ cached = <<>> THEN "save" ELSE "function")
             /\ out' = [NoOut EXCEPT !.verdict = "accept"] /\ UNCHANGED raised
@@ -349,7 +397,7 @@ Pred(p, sw) ==
         bad == {s \in DOMAIN gs : gs[s].raise # ""}
     IN  IF bad # {} THEN [verdict |-> "raised", function |-> "", args |-> <<>>, raised |-> "AssertionError"]
         ELSE LET ds == SimplifyArgs([s \in DOMAIN gs |-> gs[s].darg], p.opt, sw) IN
-             IF DurSyms(ds) \cap ForbiddenSyms(RemainingAlgs(p.opt)) # {}
+             IF DurSyms(ds) \cap ForbiddenSyms(RemainingAlgs(p.opt), sw) # {}
              THEN [verdict |-> "reject", function |-> "", args |-> <<>>, raised |-> "ValueError"]
              ELSE IF ArgSyms(ds) \subseteq FunctionInputs(RemainingParams(p.opt), RemainingConsts(p.opt), RemainingAlgs(p.opt))
                   THEN [verdict |-> "accept", function |-> "built", args |-> [pt \in 1..NPoints |-> OpArgs(ds, pt)], raised |-> ""]
@@ -360,6 +408,7 @@ Tags(p) ==
     \cup (IF DeclReject(p) THEN {"reject"} ELSE {"accept"})
     \cup UNION {{"dur:" \o cname : cname \in Cats(p.sites[s].dur)} : s \in DOMAIN p.sites}
     \cup (IF \E s \in DOMAIN p.sites : p.sites[s].loop THEN {"in-loop"} ELSE {"outside-loop"})
+    \cup (IF \E s \in DOMAIN p.sites : p.sites[s].mat THEN {"matrix-delay"} ELSE {})
     \cup (IF \E s \in DOMAIN p.sites : p.sites[s].loop /\ Varying(p.sites[s].dur) THEN {"loop-indexed-duration"} ELSE {})
     \cup (IF \E s \in DOMAIN p.sites : GenSite(p.sites[s], AsBuilt).raise # "" THEN {"loop-expr-free-var"} ELSE {})
     \cup (IF p.opt = "paramvals" /\ (\A s \in DOMAIN p.sites : GenSite(p.sites[s], AsBuilt).raise = "")
@@ -367,7 +416,8 @@ Tags(p) ==
           THEN {"paramvals-in-delay"} ELSE {})
 
 SetToSeq(S) == LET RECURSIVE f(_) f(R) == IF R = {} THEN <<>> ELSE LET x == CHOOSE x \in R : TRUE IN <<x>> \o f(R \ {x}) IN f(S)
-PointOf(pt) == [val |-> PointVal[pt], time |-> PointTime[pt], der |-> PointDer[pt], decl |-> DeclValue]
+PointOf(pt) == [val |-> PointVal[pt], time |-> PointTime[pt], der |-> PointDer[pt], decl |-> DeclValue,
+                shape |-> [xm |-> <<MatRows, MatCols>>, ym |-> <<MatRows, MatCols>>]]
 
 View == <<prog, phase, dargs, raised, params, consts, out, req, cached, first, algs>>
 Log ==
